@@ -412,7 +412,8 @@ def unit_conv(src, prop, angle_kind='Rad'):
             im is not None and im.module == 'rotation' and 'Basis3' in im.header and trait_name_of(im) in ('Mul', 'AsRef', 'From', 'One', 'Rotation')
             and f.name in ('mul', 'as_ref', 'from', 'one', 'rotate_vector'))
     else:
-        own = lambda im, f: im is not None and ('Euler' in im.header)
+        # the statement names from_angle_x/y/z as the reference rotation: they are verified here too
+        own = lambda im, f: im is not None and ('Euler' in im.header or f.name in ('from_angle_x', 'from_angle_y', 'from_angle_z'))
     u.assume_pred = lambda im, f: not own(im, f)
     if angle_kind == 'Rad':
         u.lemma_texts.append(sym.HELPER_LEMMAS)
@@ -459,6 +460,11 @@ def unit_C08(src, k):
     if k != 'q':
         u.lemma_texts.append(sym.HELPER_LEMMAS)
         add_laws(u, c_xform.laws(F, k))
+    else:
+        for L in c_quat.laws(F):
+            if L.name == 'q_ring':
+                u.lemma_texts.append(L.render_assumed('C04'))
+        u.lemma_texts += c_xform.laws_q(F)
     own = lambda im, f: im is not None and 'Decomposed' in im.header
     u.assume_pred = lambda im, f: not own(im, f)
     return u
